@@ -1,4 +1,5 @@
 import RactorModel.Model.Registry
+import RactorModel.Model.RegistryWindow
 import Driver.Common
 
 /-! Driver for the `Registry` model (C10).
@@ -10,6 +11,8 @@ Actors are numbered by the harness (`k`), names are small numbers.
 
   `case …pid=0|1` / `thrcase …`   new case: fresh model state                → `ok`
   `reg k n` `create k` `proxy k n|-` `pub k st` `unregpid k` `unregname k`   atomic ops
+  `regname k n` `regpid k`        cluster E-THR, random schedules: the two halves of `reg k n` when the
+                                  thread is left parked at `new.reg_pid` (`Model/RegistryWindow.lean`)
   `skip …`                        a region that touches no registry state     → `ok`
   `lookup n` → `none` | `found k st`     `lookuppid k` → `none` | `found k`
   `waitret k` → `ok`              `spawnret k` → `ok` | `dup` | `fail`
@@ -30,6 +33,7 @@ structure DState where
   prev : Option View := none      -- previous implementation view in this case
   waited : List Nat := []         -- actors whose `wait()` returned (implementation)
   released : List Nat := []       -- names that were registered and released in this case
+  win : List Nat := []            -- cells parked between the two registry operations of their constructor
 
 def showOptNat : Option Nat → String
   | some n => toString n
@@ -117,6 +121,14 @@ def modelStep (s : State) (w : List String) : Option (State × String × Bool ×
     let k ← k.toNat?; let n ← n.toNat?
     let (s', o) := step false s (.register k n)
     pure (s', showObs o, o == .dup, pidEvents s (.register k n))
+  | ["regname", k, n] => do
+    let k ← k.toNat?; let n ← n.toNat?
+    let (s', o) := regNameOnly s k n
+    pure (s', showObs o, true, [])
+  | ["regpid", k] => do
+    let k ← k.toNat?
+    let (s', o) := regPidOnly s k
+    pure (s', showObs o, false, regPidEvents s k)
   | ["create", k] => do
     let k ← k.toNat?
     let (s', o) := step false s (.create k); pure (s', showObs o, false, pidEvents s (.create k))
@@ -230,10 +242,36 @@ def step (d : DState) (op impl : String) : DState × StepOut :=
       let v := parseView? iv
       let mv := { view s' with evs := if d.evOn then some mevs else none }
       -- oracle on the implementation's own observations
+      -- cells inside the constructor window after this step (model side: the answer of the model)
+      let win := match w with
+        | ["regname", k, _] => if ans == "ok" then (k.toNat?.map (· :: d.win)).getD d.win else d.win
+        | ["regpid", k] => (k.toNat?.map (fun k => d.win.filter (· != k))).getD d.win
+        | _ => d.win
+      -- `failing`'s clause `pid-table` wants every live local actor in the pid table: waived for the
+      -- cells of `win` only (`failingW`); with an empty window it is `failing` itself
       let orcView := match v with
-        | some v => failing v
+        | some v => if win.isEmpty then failing v else
+            failingW win v ++ (if okWindow win v then [] else ["window-pid-before-name"])
         | none => ["unparsable-view"]
+      let orcWin := match w, v with
+        | ["regname", k, n], some v =>
+          match k.toNat?, n.toNat? with
+          | some k, some n =>
+            if ians == "ok" && ((v.pids.getD []).contains k || !v.names.contains (n, k))
+            then ["window-pid-before-name"] else []
+          | _, _ => []
+        | ["regpid", k], some v =>
+          match k.toNat?, v.pids with
+          | some k, some ps => if ps.contains k then [] else ["regpid-did-not-insert"]
+          | _, _ => []
+        | _, _ => []
       let orcReg := match w, v, d.prev with
+        | ["regname", k, n], some v, some p =>
+          match k.toNat?, n.toNat? with
+          | some k, some n =>
+            let res := if ians == "ok" then Obs.ok else if ians == "dup" then Obs.dup else Obs.bad
+            if okRegister p v k n res then [] else ["register-not-atomic"]
+          | _, _ => []
         | ["reg", k, n], some v, some p =>
           match k.toNat?, n.toNat? with
           | some k, some n =>
@@ -286,9 +324,9 @@ def step (d : DState) (op impl : String) : DState × StepOut :=
       let after := s'.names.map (·.1)
       let released := d.released ++ before.filter (fun n => !after.contains n)
       let rereg := after.any (fun n => !before.contains n && d.released.contains n)
-      ({ d with s := s', prev := v, waited, released },
+      ({ d with s := s', prev := v, waited, released, win },
        { model := s!"{ans} | {showView d.pidOn mv}",
-         oracle := orcView ++ orcReg ++ orcLookup ++ orcWait ++ orcWait2 ++ orcRace ++ orcDup,
+         oracle := (orcView ++ orcWin).eraseDups ++ orcReg ++ orcLookup ++ orcWait ++ orcWait2 ++ orcRace ++ orcDup,
          nontrivial := interesting || rereg })
 
 def run (ops impl : Array String) : IO Tally :=
